@@ -165,6 +165,18 @@ PROPS = {
         "stub": "the delivering peer (independent encoder); LoadOnce is called by the driver itself (no sync loop)",
         "assumptions": ["the failure kinds are enumerated, their positions (DBI j, entry k, round) are sampled"],
     },
+    "C08": {
+        "level": "exploration",
+        "profiles": [{"name": "hostile-sim", "weight": 1}, {"name": "fleet-hostile", "weight": 2}],
+        "rule": "hostile-sim: each case feeds 20-80 blobs (random bytes, truncations and bit flips of a valid blob, valid gzip around flipped protobuf, zero bombs, and "
+                "structurally plausible messages with lengths of 2^31..2^64-1, lengths past the end, wire types 3/4/6/7, overlong varints and huge field numbers at snapshot, "
+                "meta, DBI and entry level) to the real LoadData followed by a full iteration as a merge would do; fleet-hostile: the same blobs are placed by a hostile publisher "
+                "among the snapshots of 2-3 honest real instances (under a foreign name and under the honest instances' own names, with restarts and bucket faults), and after a "
+                "fault-free drain every instance must have merged the newest decodable snapshot of every instance and published its own data; a panic anywhere kills the worker "
+                "and is confirmed in isolation; non-trivial = at least one blob was rejected (hostile-sim) / at least one undecodable blob was placed and snapshots were "
+                "downloaded (fleet-hostile); distinct = distinct SHA-256 of the event log",
+        "assumptions": FLEET_ASSUME + ["memory proportionality is not measured; time is bounded by an iteration cap and the worker watchdog"],
+    },
 }
 
 ALL_PROFILES = sorted({p["name"] for c in PROPS.values() for p in c["profiles"]})
@@ -237,4 +249,7 @@ MANIFEST_TEXT = {
                     "positions: a failed LoadOnce must leave the LMDB byte-identical with the same LastTxnID, a concurrent reader never sees a partial merge, refusals are mandatory where "
                     "the statement says so, successful merges follow the documented meaning of format versions 1-3.",
             "note": SIM_NOTE, "technique": "deterministic simulation with enumerated fault kinds injected into the real merge transaction + byte-exact before/after comparison"},
+    "C08": {"text": "Hostile and corrupt blobs are fed to the real decoder (component) and placed among honest snapshots in fleet runs with restarts and faults; a panic or hang "
+                    "anywhere is a violation, and after the faults stop honest traffic must still be merged and published.",
+            "note": SIM_NOTE + " Memory use is not measured.", "technique": "deterministic simulation with hostile-input injection at the bucket seam + bounded liveness after faults stop"},
 }
